@@ -275,6 +275,36 @@ class Tx:
             self.defs[name] = None
             self.unparsed.append({'item': name, 'why': str(e)})
 
+    def emit_cascade(self, rep):
+        """XMatrix.cascade: `return self.chain(TP)` (or, if someone swaps it, `TP.chain(self)`)"""
+        name = '%s_cascade' % rep
+        f = self.classes.get(rep + 'Matrix', {}).get('cascade')
+        if f is None:
+            return
+        try:
+            if self.defs.get('%s_chain' % rep) is None:
+                raise Unparsed('chain untranslated')
+            ret = [s for s in f.body if isinstance(s, ast.Return)]
+            other = f.args.args[1].arg
+            body = None
+            if len(ret) == 1 and isinstance(ret[0].value, ast.Call) and isinstance(ret[0].value.func, ast.Attribute) \
+                    and ret[0].value.func.attr == 'chain' and len(ret[0].value.args) == 1 \
+                    and isinstance(ret[0].value.func.value, ast.Name) and isinstance(ret[0].value.args[0], ast.Name):
+                recv, arg = ret[0].value.func.value.id, ret[0].value.args[0].id
+                if (recv, arg) == ('self', other):
+                    body, o = '%s_chain a b' % rep, 'self.chain(TP)'
+                elif (recv, arg) == (other, 'self'):
+                    body, o = '%s_chain b a' % rep, 'TP.chain(self)'
+            if body is None:
+                raise Unparsed('%sMatrix.cascade body' % rep)
+            self.defs[name] = '/-- %sMatrix.cascade (twoport.py:%d): `%s` -/\ndef %s (a b : M2 K) : M2 K :=\n  %s\n' % (
+                rep, f.lineno, o, name, body)
+            self.order.append(name)
+            self.routes[name] = {'defined_in': rep + 'Matrix', 'line': f.lineno, 'route': 'self*TP'}
+        except Unparsed as e:
+            self.defs[name] = None
+            self.unparsed.append({'item': name, 'why': str(e)})
+
     def emit_section(self, rep, sec):
         name = '%s_%s' % (rep, sec)
         f = self.classes.get(rep + 'Matrix', {}).get(sec)
@@ -401,6 +431,7 @@ class Tx:
         for x in REPS:
             if 'chain' in self.classes.get(x + 'Matrix', {}):
                 self.emit_chain(x)
+                self.emit_cascade(x)
         for x in REPS:
             for sname in SECTIONS:
                 self.emit_section(x, sname)
@@ -436,7 +467,7 @@ def generate(repo='/repo'):
     convs = [n for n in tx.order if len(n) == 6 and n[1:5] == '_to_']
     scal = [n for n in tx.order if tx.routes[n].get('route') not in ('section', 'self*TP', 'TP*self') and n not in convs]
     secs = [n for n in tx.order if tx.routes[n].get('route') == 'section']
-    chains = [n for n in tx.order if n.endswith('_chain')]
+    chains = [n for n in tx.order if n.endswith('_chain') or n.endswith('_cascade')]
     parts.append('/-- dispatch tables for the line-protocol driver -/\n')
     parts.append('def convTable : List (String × (M2 K → K → M2 K)) :=\n  [' + ',\n   '.join('("%s", %s)' % (n, n) for n in convs) + ']\n\n')
     parts.append('def scalarTable : List (String × (M2 K → K → K)) :=\n  [' + ',\n   '.join('("%s", %s)' % (n, n) for n in scal) + ']\n\n')
